@@ -322,7 +322,7 @@ def sweep(ctx: Ctx):
 
 def shard(ctx: Ctx):
     sweep(ctx)
-    explore(ctx, "roundtrip", G.case_strategy(MODES), check_case, ctx.n(2400, 120000), batch=150)
+    explore(ctx, "roundtrip", G.case_strategy(MODES), check_case, ctx.n(2400, 80000), batch=150)
 
 
 def replay(sub, case, ctx: Ctx):
